@@ -117,12 +117,16 @@ class Ncp:
         self.node_id = 0x0000
         self.net_params = None
         self.keys = {}
-        self.key_table = []
+        self.key_table = {}  # index -> (eui64 bytes, key bytes)
         self.children = {}
         self.address_table = {}
         self.nwk_fc = 0
         self.aps_fc = 0
-        self.sec_state = None
+        self.sec = None  # dict(bitmask, tclk, nwk_key, nwk_seq, tc_eui) from setInitialSecurityState
+        self.sec_calls = []  # every setInitialSecurityState argument seen (decoded struct)
+        self.factory_eui64 = self.eui64
+        self.nv3_restored_token = None  # NV3 key id of the restored-EUI64 token if the firmware has one
+        self.address_table = {}
         # volatile state
         self._volatile()
         # scenario knobs
@@ -136,6 +140,8 @@ class Ncp:
         self.leave_status = "OK"
         self.init_status = None  # override of networkInit status
         self.emit_stack_status = True
+        self.auto_confirm = False  # answer sendUnicast with a success messageSentHandler (used during application start-up)
+        self.sent_messages = []  # (kind, req idx, dest, tag, aps seq)
 
     def _volatile(self):
         self.negotiated = False
@@ -160,6 +166,7 @@ class Ncp:
     def ncp_reset(self):
         self.resets += 1
         self._volatile()
+        self._apply_eui64()
         self.first_after_reset.append(None)
         self.log.append((self.loop.time(), "ncp_ezsp_reset"))
 
@@ -257,6 +264,8 @@ class Ncp:
             tys = list(schema.values())
             if vals is None:
                 vals = [_zero(ty) for ty in tys]
+            elif isinstance(vals, dict):
+                vals = [vals[k] if k in vals else _zero(ty) for k, ty in schema.items()]
             vals = list(vals)
             assert len(vals) == len(tys), (vals, schema)
             return b"".join(self._field(ty, v) for ty, v in zip(tys, vals))
@@ -476,3 +485,236 @@ class Ncp:
         c = list(self.counters)
         self.counters = [0] * len(self.counters)
         return (c,)
+
+    # ------------------------------------------------------------------ identity / tokens
+    def _apply_eui64(self):
+        """Custom EUI64 (NV3 restored-EUI64 token, else the burnt manufacturing token) takes effect at reset."""
+        ff = b"\xff" * 8
+        if self.nv3_restored_token is not None:
+            v = self.nv3.get((self.nv3_restored_token, 0), ff)
+            if v != ff and len(v) == 8:
+                self.eui64 = bytes(v)
+                return
+        m = self.mfg_tokens.get(0x0C, ff)
+        self.eui64 = bytes(m) if (m != ff and len(m) == 8) else self.factory_eui64
+
+    def h_setMfgToken(self, req, tokenId, tokenData):
+        self.mfg_tokens[int(tokenId)] = bytes(tokenData)
+        return (St("OK"),)
+
+    def h_getTokenData(self, req, token, index):
+        if not self.has_token_data:
+            return "invalid"
+        key = (int(token), int(index))
+        if key in self.nv3:
+            return (St("OK"), self.nv3[key])
+        if self.nv3_restored_token is not None and int(token) == self.nv3_restored_token and int(index) == 0:
+            return (St("OK"), b"\xff" * 8)
+        return (St("NOT_FOUND"), b"")
+
+    def h_setTokenData(self, req, token, index, token_data):
+        if not self.has_token_data:
+            return "invalid"
+        self.nv3[(int(token), int(index))] = bytes(token_data)
+        return (St("OK"),)
+
+    def h_tokenFactoryReset(self, req, **kw):
+        self.formed = False
+        self.net_params = None
+        self.sec = None
+        self.nwk_fc = 0
+        self.aps_fc = 0
+        self.children = {}
+        self.net_state = NO_NETWORK
+        return ()
+
+    # ------------------------------------------------------------------ security
+    def _key_table_size(self):
+        return self.config.get(0x1E, self.config_default.get(0x1E, 8))
+
+    def h_setInitialSecurityState(self, req, state):
+        self.sec_calls.append(state)
+        if self.net_state != NO_NETWORK:
+            return (St("INVALID_CALL"),)
+        self.sec = {"bitmask": int(state.bitmask), "tclk": bytes(state.preconfiguredKey.serialize()), "nwk_key": bytes(state.networkKey.serialize()),
+                    "nwk_seq": int(state.networkKeySequenceNumber), "tc_eui": bytes(state.preconfiguredTrustCenterEui64.serialize())}
+        return (St("OK"),)
+
+    def h_getCurrentSecurityState(self, req):
+        t = self.t
+        if self.sec is None or self.net_state != JOINED:
+            return (St("NOT_JOINED"), t.EmberCurrentSecurityState(bitmask=0, trustCenterLongAddress=t.EUI64.deserialize(bytes(8))[0]))
+        bm = 0x0004 | 0x0010
+        if self.sec["bitmask"] & 0x0084 == 0x0084:
+            bm |= 0x0084
+        tc = self.sec["tc_eui"] if self.sec["bitmask"] & 0x0040 else self.eui64
+        return (St("OK"), t.EmberCurrentSecurityState(bitmask=bm, trustCenterLongAddress=t.EUI64.deserialize(tc)[0]))
+
+    def _keystruct(self, ktype, key, out_fc=0, seq=0, partner=b"\xff" * 8, bitmask=0):
+        t = self.t
+        return t.EmberKeyStruct(bitmask=bitmask, type=ktype, key=t.KeyData.deserialize(key)[0], outgoingFrameCounter=out_fc, incomingFrameCounter=0,
+                                sequenceNumber=seq, partnerEUI64=t.EUI64.deserialize(partner)[0])
+
+    def h_getKey(self, req, keyType):
+        kt = int(keyType)
+        if self.sec is None:
+            return (St("NOT_FOUND"), self._keystruct(kt, bytes(16)))
+        if kt == 3:  # CURRENT_NETWORK_KEY
+            return (St("OK"), self._keystruct(3, self.sec["nwk_key"], self.nwk_fc, self.sec["nwk_seq"], bitmask=0x01 | 0x02))
+        if kt == 1:  # TRUST_CENTER_LINK_KEY
+            return (St("OK"), self._keystruct(1, self.sec["tclk"], self.aps_fc, 0, bitmask=0x02 | 0x08))
+        return (St("NOT_FOUND"), self._keystruct(kt, bytes(16)))
+
+    def h_exportKey(self, req, context):
+        t = self.t
+        kt = int(context.core_key_type)
+        if self.sec is None or kt not in (1, 2):
+            return {"status": St("NOT_FOUND"), "key": t.KeyData.deserialize(bytes(16))[0], "context": context}
+        key = self.sec["nwk_key"] if kt == 1 else self.sec["tclk"]
+        return {"status": St("OK"), "key": t.KeyData.deserialize(key)[0], "context": context}
+
+    def h_getNetworkKeyInfo(self, req):
+        t = self.t
+        have = self.sec is not None
+        info = t.SecurityManagerNetworkKeyInfo(network_key_set=have, alternate_network_key_set=False,
+                                               network_key_sequence_number=self.sec["nwk_seq"] if have else 0, alt_network_key_sequence_number=0,
+                                               network_key_frame_counter=self.nwk_fc)
+        return (St("OK"), info)
+
+    # -- link key table
+    def h_clearKeyTable(self, req):
+        self.key_table = {}
+        return (St("OK"),)
+
+    def h_addOrUpdateKeyTableEntry(self, req, address, linkKey, keyData):
+        eui = bytes(address.serialize())
+        size = self._key_table_size()
+        for i, (e, _k) in self.key_table.items():
+            if e == eui:
+                self.key_table[i] = (eui, bytes(keyData.serialize()))
+                return (St("OK"),)
+        for i in range(size):
+            if i not in self.key_table:
+                self.key_table[i] = (eui, bytes(keyData.serialize()))
+                return (St("OK"),)
+        return (St("TABLE_FULL"),)
+
+    def h_getKeyTableEntry(self, req, index):
+        i = int(index)
+        if i >= self._key_table_size():
+            return (St("INDEX_OUT_OF_RANGE"), self._keystruct(5, bytes(16)))
+        if i not in self.key_table:
+            return (St("TABLE_ENTRY_ERASED"), self._keystruct(5, bytes(16)))
+        eui, key = self.key_table[i]
+        return (St("OK"), self._keystruct(5, key, 0, 0, eui, bitmask=0x02 | 0x04 | 0x08 | 0x10))
+
+    def h_findKeyTableEntry(self, req, address, linkKey):
+        eui = bytes(address.serialize())
+        for i, (e, _k) in self.key_table.items():
+            if e == eui:
+                return (i,)
+        return (0xFF,)
+
+    def h_eraseKeyTableEntry(self, req, index):
+        self.key_table.pop(int(index), None)
+        return (St("OK"),)
+
+    def h_importLinkKey(self, req, index, address, key):
+        i = int(index)
+        if i >= self._key_table_size():
+            return (St("INDEX_OUT_OF_RANGE"),)
+        self.key_table[i] = (bytes(address.serialize()), bytes(key.serialize()))
+        return (St("OK"),)
+
+    def h_exportLinkKeyByIndex(self, req, index):
+        t = self.t
+        i = int(index)
+        zero_key = t.KeyData.deserialize(bytes(16))[0]
+        meta = t.SecurityManagerAPSKeyMetadata(bitmask=0, outgoing_frame_counter=0, incoming_frame_counter=0, ttl_in_seconds=0)
+        if i >= self._key_table_size() or i not in self.key_table:
+            st = "INDEX_OUT_OF_RANGE" if i >= self._key_table_size() else "NOT_FOUND"
+            return {"status": St(st), "eui64": t.EUI64.deserialize(bytes(8))[0], "plaintext_key": zero_key, "key_data": meta}
+        eui, key = self.key_table[i]
+        meta = t.SecurityManagerAPSKeyMetadata(bitmask=0x02 | 0x04 | 0x08, outgoing_frame_counter=0, incoming_frame_counter=0, ttl_in_seconds=0)
+        out = {"status": St("OK"), "eui64": t.EUI64.deserialize(eui)[0], "plaintext_key": t.KeyData.deserialize(key)[0], "key_data": meta}
+        if self.V >= 14:
+            out["context"] = t.SecurityManagerContextV13(core_key_type=4, key_index=i, derived_type=0, eui64=t.EUI64.deserialize(eui)[0],
+                                                         multi_network_index=0, flags=0, psa_key_alg_permission=0)
+        return out
+
+    # -- child table
+    def h_getChildData(self, req, index):
+        t = self.t
+        i = int(index)
+        c = self.children.get(i)
+        zero_eui = t.EUI64.deserialize(bytes(8))[0]
+        if self.V < 7:
+            if c is None:
+                return (St("NOT_JOINED"), 0xFFFF, zero_eui, 0)
+            return (St("OK"), c[1], t.EUI64.deserialize(c[0])[0], c[2])
+        cls = t.EmberChildDataV10 if self.V >= 10 else t.EmberChildDataV7
+        extra = {"timeout_remaining": 0} if self.V >= 10 else {}
+        if c is None:
+            return (St("NOT_JOINED"), cls(eui64=zero_eui, type=0, id=0xFFFF, phy=0, power=0, timeout=0, **extra))
+        return (St("OK"), cls(eui64=t.EUI64.deserialize(c[0])[0], type=c[2], id=c[1], phy=0, power=0, timeout=0, **extra))
+
+    def h_setChildData(self, req, index, child_data):
+        i = int(index)
+        if i >= self.config.get(0x11, self.config_default.get(0x11, 32)):
+            return (St("INDEX_OUT_OF_RANGE"),)
+        self.children[i] = (bytes(child_data.eui64.serialize()), int(child_data.id), int(child_data.type))
+        return (St("OK"),)
+
+    # -- address table (only what start-up and send_packet need)
+    def h_getAddressTableRemoteNodeId(self, req, addressTableIndex):
+        e = self.address_table.get(int(addressTableIndex))
+        return (e[1] if e else 0xFFFF,)
+
+    def h_getAddressTableRemoteEui64(self, req, addressTableIndex):
+        e = self.address_table.get(int(addressTableIndex))
+        return (self.t.EUI64.deserialize(e[0] if e else bytes(8))[0],)
+
+    def h_getAddressTableInfo(self, req, index):
+        e = self.address_table.get(int(index))
+        if e is None:
+            return (St("NOT_FOUND"), 0xFFFF, self.t.EUI64.deserialize(bytes(8))[0])
+        return (St("OK"), e[1], self.t.EUI64.deserialize(e[0])[0])
+
+    # ------------------------------------------------------------------ scans (default behaviour; C17 scripts its own)
+    def h_startScan(self, req, scanType, channelMask, duration):
+        chans = [c for c in range(11, 27) if int(channelMask) & (1 << c)]
+        if int(scanType) == 0:  # energy scan
+            for i, c in enumerate(chans):
+                self.callback("energyScanResultHandler", (c, -90 + (c * 7) % 30), 0.01 * (i + 1))
+        self.callback("scanCompleteHandler", (0, St("OK")), 0.01 * (len(chans) + 2))
+        return (St("OK"),)
+
+    # ------------------------------------------------------------------ scenario helper
+    def preform(self, pan_id=0x1A2B, channel=15, epid=bytes(range(8)), nwk_key=bytes(range(16)), tclk=b"ZigBeeAlliance09", hashed=True):
+        """Put the NCP into the state of a coordinator that has formed a network earlier (durable state only)."""
+        t = self.t
+        self.formed = True
+        self.node_type = 1
+        self.node_id = 0x0000
+        self.net_params = t.EmberNetworkParameters(extendedPanId=t.ExtendedPanId.deserialize(epid)[0], panId=pan_id, radioTxPower=8, radioChannel=channel,
+                                                   joinMethod=0, nwkManagerId=0, nwkUpdateId=0, channels=0x07FFF800)
+        self.sec = {"bitmask": 0x0004 | 0x0100 | 0x0200 | 0x0800 | 0x1000 | 0x0040 | (0x0084 if hashed else 0), "tclk": bytes(tclk), "nwk_key": bytes(nwk_key),
+                    "nwk_seq": 0, "tc_eui": self.eui64}
+
+    # ------------------------------------------------------------------ message sending (default behaviour; C12 scripts its own)
+    def _sent_cb(self, mtype, dest, aps, tag, status, msg=b"", delay=0.0):
+        if self.V >= 14:
+            vals = {"status": St(status), "message_type": mtype, "nwk": dest, "aps_frame": aps, "message_tag": tag, "message": msg}
+        else:
+            vals = {"type": mtype, "indexOrDestination": dest, "apsFrame": aps, "messageTag": tag, "status": St(status), "messageContents": msg}
+        self.callback("messageSentHandler", vals, delay)
+
+    def h_sendUnicast(self, req, **kw):
+        if self.V >= 14:
+            dest, aps, tag = int(kw["nwk"]), kw["aps_frame"], int(kw["message_tag"])
+        else:
+            dest, aps, tag = int(kw["indexOrDestination"]), kw["apsFrame"], int(kw["messageTag"])
+        self.sent_messages.append(("unicast", req.idx, dest, tag, int(aps.sequence)))
+        if self.auto_confirm:
+            self._sent_cb(0, dest, aps, tag, "OK", b"", 0.01)
+        return (St("OK"), int(aps.sequence))
